@@ -79,7 +79,8 @@ def setup():
     import pandas as pd
     _T.update(fsmod=fsmod, FileSet=FileSet, FileHandler=FileHandler,
               FileInfo=FileInfo, xr=xr, pd=pd)
-
+    from sim.seams import typhon_state
+    _T["state"] = typhon_state()
 
 
 # ------------------------------------------------------- user (pickle) handler
@@ -670,6 +671,7 @@ def _kw(kw):
 
 
 def run_one(tape, only=None):
+    _T["state"].restore()      # each run models a fresh interpreter
     res = new_result()
     w = gen_workload(tape)
     policy = make_policy(tape)
